@@ -46,6 +46,20 @@ def single_position_wide_atoms(e: Dict[str, Any]) -> List[Tuple[str, str]]:
                 for b in av[1]:
                     walk(b, unbounded)
             elif n in ("MAX_REPEAT", "MIN_REPEAT"):
+                lo_, hi_, sub_ = av
+                if hi_ != rx.MAXREPEAT and hi_ > 1:
+                    # a counted repeat of a wide atom counts characters in Python and bytes under byte mode: `[^\sa-z]{,3}` admits three
+                    # curly quotes for `re` and one for Hyperscan.  (A kind of its own: it is not covered by the known finding about single atoms.)
+                    for op2, av2 in list(sub_):
+                        n2 = str(op2)
+                        wide = n2 in ("NOT_LITERAL", "ANY")
+                        if n2 == "IN":
+                            it2 = tuple((str(o), a if not isinstance(a, list) else tuple(a)) for o, a in av2)
+                            if not all(k in ("CATEGORY", "NEGATE") for k, _ in it2):
+                                p2 = rx.Pred("IN", it2, bool(e["flags"] & _re.I))
+                                wide = any(p2.matches(ch) for ch in NONASCII_PROBES)
+                        if wide and len(list(sub_)) == 1:
+                            out.append(("counted-repeat", f"{{{lo_},{hi_}}}"))
                 walk(av[2], unbounded or av[1] == rx.MAXREPEAT)
 
     walk(rx.parse(e["regex"], e["flags"]), False)
@@ -124,7 +138,7 @@ def rule_patterns(ctx: Ctx, data):
             hazards.append((e, h))
     ctx.extra["patterns_with_single_position_wide_atom"] = {k: len(v) for k, v in kinds.items()}
     witnesses = {"negated-class": "“1 U.S. 1”", "dot": "see 12 Am. Jur. p“ 34 x"}
-    for kind in sorted(set(kinds) | {"negated-class"}):
+    for kind in sorted(set(kinds) | {"negated-class", "counted-repeat"}):
         n = len(kinds.get(kind, []))
         ctx.ob("R-C14-2", f"tokenizers.HyperscanTokenizer.hyperscan_db/byte-mode x {kind}", utf8 or n == 0,
                f"{n} patterns contain a one-character {kind} atom that can match a multi-byte character; the patterns are compiled from UTF-8 bytes "
@@ -366,6 +380,33 @@ def rule_cache(ctx: Ctx):
     ctx.ob("R-C14-6", f"{q}/memo", bool(memo), "compiled once per tokenizer instance", node=db, mod=tm, nontrivial=False)
 
 
+def rule_db_is_own(ctx: Ctx):
+    """R-C14-9: the database a HyperscanTokenizer scans with is compiled (or loaded, under a key that is a digest of the patterns -- R-C14-4) from
+    that tokenizer's own extractors.  A store shared between instances is only sound when keyed by content; object identity (`id(x)`) is not content:
+    an address is reused once its object is collected, and the next tokenizer silently scans with the previous one's patterns."""
+    repo = ctx.repo
+    tm = repo.mod("tokenizers")
+    mglobals = set()
+    for s_ in tm.tree.body:
+        if isinstance(s_, (ast.Assign, ast.AnnAssign)) and s_.value is not None:
+            v = s_.value
+            if isinstance(v, (ast.Dict, ast.List, ast.Set)) or (isinstance(v, ast.Call) and (dotted(v.func) or "").split(".")[-1] in
+                                                                  ("dict", "list", "set", "defaultdict", "OrderedDict", "WeakValueDictionary", "WeakKeyDictionary")):
+                mglobals |= assigned_names(s_)
+    n = 0
+    for qual, mod, fn in repo.all_funcs():
+        if not qual.startswith("tokenizers.HyperscanTokenizer."):
+            continue
+        n += 1
+        ids = [c for c in walk_local(fn) if isinstance(c, ast.Call) and isinstance(c.func, ast.Name) and c.func.id == "id"]
+        shared = [x for x in walk_local(fn) if isinstance(x, ast.Name) and x.id in mglobals]
+        ctx.ob("R-C14-9", f"{qual}/own-database", not ids and not shared,
+               "the tokenizer's database and scan state come from its own extractors: no object identity used as a key "
+               f"({[norm(c)[:30] for c in ids][:2]}) and no module-level container shared between instances ({sorted({x.id for x in shared})})",
+               node=(ids or shared or [fn])[0], mod=tm, nontrivial=bool(ids or shared) or qual.endswith("hyperscan_db"))
+    ctx.ob("R-C14-9", "tokenizers.HyperscanTokenizer/methods", n >= 3, f"{n} methods examined", node=None, mod=tm, nontrivial=False)
+
+
 def run(ctx: Ctx):
     ctx.level = "other"
     ctx.explanation = (
@@ -387,6 +428,7 @@ def run(ctx: Ctx):
     ctx.guard(from_match_rules, ctx, "R-C14-1b")
     ctx.guard(rule_patterns, ctx, data)
     ctx.guard(rule_cache, ctx)
+    ctx.guard(rule_db_is_own, ctx)
     ctx.floor("R-C14-1", 4)
     ctx.floor("R-C14-2", 1)
     ctx.floor("R-C14-4", 4)
